@@ -167,14 +167,14 @@ def designated_member_data(ctx, body, mine, RULE):
     import re
     rep = ctx.rep
     from . import msm
-    from .common import guard_table
+    from .common import guard_table, unconditional
     cons = msm.consistency_fn(ctx, RULE)
     if cons is None:
         return
     compared = set()
     for r in guard_table(ctx, cons):
-        if not any(c[0] == 'forall' for c in r['ctx']) or r['eff'] == 'bypass':
-            continue
+        if not any(c[0] == 'forall' for c in r['ctx']) or r['eff'] == 'bypass' or not unconditional(r):
+            continue            # a comparison made for some members only does not make the members agree
         for a in r['atoms']:
             if a[0] == 'cmp' and a[1] == 'Eq':
                 for x, y in ((a[2], a[3]), (a[3], a[2])):
